@@ -94,6 +94,13 @@ func main() {
 				// the last trace: a burst of 24 short-lived processes while nobody reads the events channel
 				opt.Procs, opt.Burst, opt.PauseReaderMs = 24, true, 400
 			}
+			if !*fake && k == *reps-2 {
+				// scripted: leaders that exit and leave a child holding their output; the first two are met only by the
+				// Kill of the clean-up, the others by a Terminate (group observed afterwards)
+				opt.Procs = 6
+				opt.Fixed = []supv.FixedProc{{Beh: "orphan0", Delay: 0}, {Beh: "orphan0", Delay: 30}, {Beh: "orphan0", Delay: 80}, {Beh: "fork", Delay: 0},
+					{Beh: "orphanq", Delay: 0}, {Beh: "orphanq", Delay: 80}}
+			}
 			if *fake {
 				opt.Fake = func(r *rec.Recorder) supvmodel.ProcessSupervisor { return stack.NewFakeSupWithRules(r) }
 			}
